@@ -74,7 +74,9 @@ def gen_op(rng):
     # quoted file values may contain anything printable
     for name in list(in_file):
         if rng.random() < 0.2:
-            in_file[name] = rng.choice(["a b", "x#y", "semi;colon", "eq=als", "tab\there", "quote's", 'dq"x', "back\\slash", " lead", "trail "])
+            in_file[name] = rng.choice(["a b", "x#y", "semi;colon", "eq=als", "tab\there", "quote's", 'dq"x', "back\\slash", " lead", "trail ",
+                                        # backslash sequences that are escapes only inside double quotes
+                                        "new\\nline x", "t\\tab x", "c\\rx y", "q\\\"x y", "bs\\\\x y"])
     text = ""
     if use_file:
         text += rng.choice(["", "# comment line\n", "; another\n", "\n\n", "   \n"])
@@ -121,9 +123,18 @@ def gen_op(rng):
                             ["--define", "rlimit_files=''"], ["--loglevel", ""], ["--loglevel="],
                             ["--define", "app_timeout=%s" % rng.choice(TIMEOUTS)], ["--define=app_timeout = %s" % rng.choice(TIMEOUTS)],
                             ["--unknownflag"], ["--pprof", "x"], ["--port"]])
+    if rng.random() < 0.12 and not legacy_mode:
+        # a --define that is only a keyword (no '='): accepted and ignored; it must not affect the settings around it
+        kw = ["--define", rng.choice(["logfile", "foo", "pidfile", "x_y", "port"])]
+        pos = [i for i in range(len(args) + 1) if i == 0 or i == len(args) or args[i].startswith("-")]
+        # (only between complete options: never between a flag and its value)
+        pos = [i for i in pos if i == 0 or not (args[i - 1].startswith("-") and "=" not in args[i - 1] and args[i - 1] not in ("-f", "--foreground", "--no-pidfile"))]
+        i = rng.choice(pos)
+        args[i:i] = kw
     rng.shuffle(args) if False else None
     # expected winners for the plain string settings (Spec on the implementation)
-    bad = any(a in ("--unknownflag",) for a in args) or args[-1:] == ["--port"] or ["--pprof", "x"] == args[-2:] or "bogus" in args
+    bad = any(a in ("--unknownflag",) for a in args) or args[-1:] == ["--port"] or "bogus" in args or \
+        any(args[i:i + 2] == ["--pprof", "x"] for i in range(len(args)))
     if not legacy_mode and not bad:
         # log level: the last assignment on the command line, else the last one in the file, else "info"; an empty value means
         # the default level in every spelling
